@@ -14,6 +14,7 @@
   * `nonFiniteAt`, `convergedAt`, `flatAt`, `stopAt` = verdicts of a check at iteration `k`;
   * `validate`, `ValidInput`, `loopOf` = the validation prefix of `compute` and the loop it runs.
 -/
+import EtVerif.Props.C05a
 import EtVerif.Proofs.Loop
 
 namespace EtVerif.C05
